@@ -43,7 +43,7 @@ class C05(Prop):
     compare_run = True
     property_obs = ("class", "value", "truth", "prep")
     rule = ("every pool value (all types; singletons and fresh objects) x provenance (literal, variable, struct field, host function "
-            "result, comparison, built-in) x truth-consuming position (if, while, ternary, !, Run verdict) and all ordered pairs of "
+            "result, comparison, built-in) x truth-consuming position (if, while, ternary, !, Run verdict; also with !x, !!x as the condition) and all ordered pairs of "
             "pool values under && and ||; expectations computed from the documented truth table, independent of the model")
 
     def cases(self, rng, tier):
@@ -67,6 +67,19 @@ class C05(Prop):
                 bang = (not v) if isinstance(v, bool) else (v is None)
                 out.append(case("return !%s;" % e, ops, objs, "b1" if bang else "b0", "bang-" + pname))
                 out.append(case("return !(!%s);" % e, ops, objs, "b0" if bang else "b1", "bangbang-" + pname))
+                # the value of !x consumed by every truth-consuming position: they must all see the same boolean
+                nb = one if bang else zero
+                out.append(case("if (!%s) { return 1; } return 0;" % e, ops, objs, nb, "if-bang-" + pname))
+                out.append(case("if (!%s) { return 1; } else { return 0; }" % e, ops, objs, nb, "ifelse-bang-" + pname))
+                out.append(case("return !%s ? 1 : 0;" % e, ops, objs, nb, "ternary-bang-" + pname))
+                out.append(case("return (!%s) ? 1 : 0;" % e, ops, objs, nb, "ternary-bang-" + pname))
+                out.append(case("return !(!%s) ? 0 : 1;" % e, ops, objs, nb, "ternary-bangbang-" + pname))
+                out.append(case("n = 0; while (!%s) { n = 1; return n; } return n;" % e, ops, objs, nb, "while-bang-" + pname))
+                out.append(case("return !%s;" % e, ops, objs, "b1" if bang else "b0", "run-bang-" + pname, run=True))
+                out.append(case("return (!%s && true);" % e, ops, objs, "b1" if bang else "b0", "and-bang-" + pname))
+                out.append(case("return (!%s || false);" % e, ops, objs, "b1" if bang else "b0", "or-bang-" + pname))
+                out.append(case("t = !%s; return t ? 1 : 0;" % e, ops, objs, nb, "ternary-bang-var-" + pname))
+                out.append(case("return (%s ? 1 : 0) + (%s ? 10 : 20);" % (e, e), ops, objs, "i11" if t else "i20", "ternary-twice-" + pname))
         # && and || over all ordered pairs, literal and variable/field provenance
         for a in POOL:
             for b in POOL:
